@@ -12,7 +12,7 @@ C2S: seeded random responders (up to 6 workers, budgets up to the default 100, a
      recorded run against Trace_ForkSupervisor (all invariants at every step).
 """
 from harness import framework
-from harness.proc_driver import replay_supervisor
+from harness.proc_driver import replay_supervisor, gen_paths_fast, random_supervisor_trace
 
 
 def replayer(extra, path):
@@ -23,9 +23,16 @@ def run(ctx):
     ctx.mc("proc", "ForkSupervisor", "MC_ForkSupervisor.cfg",
            required_actions=["ForkParentSym", "ForkChild", "Wait", "WaitUnknownSym"])
     L = ctx.pick(6, 8)
-    paths = ctx.gen_paths("proc", "Gen_ForkSupervisor", "Gen_ForkSupervisor.cfg", overrides={"L": L})
+    paths = gen_paths_fast(ctx, "proc", "Gen_ForkSupervisor", "Gen_ForkSupervisor.cfg", overrides={"L": L})
     ctx.replay(paths, replayer, nontrivial=lambda e, p: len(p) >= 3)
     ctx.cov["exhaustive"] = True
+    # code -> spec
+    n = ctx.pick(200, 5000)
+    maxn, maxpid = 6, 60
+    jobs = [(i + 1, ctx.seed * 1000003 + i, maxn, maxpid, ctx.pick(60, 120)) for i in range(n)]
+    traces = framework.pool_map(random_supervisor_trace, jobs)
+    ctx.validate("proc", "Trace_ForkSupervisor", "Trace_ForkSupervisor.cfg", traces,
+                 overrides={"MaxN": maxn, "MaxPid": maxpid})
     ctx.cov["rule"] = "every fork/wait history up to length %d" % L
 
 
